@@ -91,6 +91,9 @@ Proof. rewrite gsum_S_shift, gsum_S. simpl. lra. Qed.
 Lemma fofN_INR n : fofN (N := NumR) n = INR n.
 Proof. unfold fofN. numR. rewrite <- INR_IZR_INZ. reflexivity. Qed.
 
+Lemma hget_map_gen {A B} (f : A -> B) x0 rh i : hget (f x0) (map f rh) i = f (hget x0 rh i).
+Proof. rewrite !hget_nth. rewrite <- (map_nth f). reflexivity. Qed.
+
 Ltac rsimp := numR; rewrite ?fofN_INR in *.
 
 Section Helpers.
